@@ -457,6 +457,9 @@ class OpCase:
         out = E.Outcome()
         specs, ts, arrays, names = self._make_inputs(env, True)
         extra = self.opdef.extra(self.args, env)
+        # operand dtypes as handed in (round k: read before the call - a layer that rebinds the data of a state tensor it was
+        # given, e.g. running statistics promoted to float64, must not thereby excuse a promoted result)
+        in_dts = {str(t.dtype) for sp, t in zip(specs, ts) if str(t.dtype).startswith("float")}
         try:
             o = self.opdef.forward(self.args, ts, extra)
         except Exception as e:  # noqa: BLE001
@@ -466,7 +469,6 @@ class OpCase:
             return out
         outs = as_list(o)
         Tn = T()
-        in_dts = {str(t.dtype) for sp, t in zip(specs, ts) if str(t.dtype).startswith("float")}
         gdtype = np.dtype(self.variant.get("gdtype", "float32"))
         for k, oo in enumerate(outs):
             if len(in_dts) == 1:
